@@ -41,6 +41,7 @@ const (
 	AClose
 	ACancel
 	ASetQid
+	AExpire
 )
 
 type Action struct {
@@ -75,6 +76,10 @@ type Final struct {
 	Reserved, Queued int
 	Closed           bool
 	Blocked          []int
+	Arms             []int // every SetReadDeadline: 1 idle timeout, 2 waiting-reply timeout
+	// IdleRearm: the read deadline expired while a query was written and
+	// unanswered and the deadline armed was the idle one (finding F10).
+	IdleRearm bool
 }
 
 // ---------- Coq rendering ----------
@@ -104,6 +109,8 @@ func (a Action) Coq() string {
 		return hx.App("ACancel", c)
 	case ASetQid:
 		return hx.App("ASetQid", hx.Ni(int(a.Wid)))
+	case AExpire:
+		return "AExpire"
 	}
 	return "?"
 }
@@ -130,7 +137,7 @@ func CaseCoq(s Script, obs []Obs, f Final) string {
 		bl[i] = hx.Nat(c)
 	}
 	return hx.App("CTdc", hx.Ni(s.MaxCq), hx.Bool(s.TCP), hx.Ni(int(s.Nq0)), hx.List(items),
-		hx.Ni(f.Reserved), hx.Ni(f.Queued), hx.Bool(f.Closed), hx.List(bl))
+		hx.Ni(f.Reserved), hx.Ni(f.Queued), hx.Bool(f.Closed), hx.List(bl), hx.NList(f.Arms))
 }
 
 // ---------- fake connection ----------
@@ -274,6 +281,34 @@ func (f *fakeConn) isClosed() bool {
 	return f.closed
 }
 
+const idleTimeout = time.Minute // distinct from transport's waitingReplyTimeout (10 s)
+
+func armKind(d time.Duration) int {
+	if d > 30*time.Second {
+		return 1
+	}
+	return 2
+}
+
+func (f *fakeConn) lastArm() int {
+	f.mu.Lock()
+	defer f.mu.Unlock()
+	if len(f.arms) == 0 {
+		return 0
+	}
+	return armKind(f.arms[len(f.arms)-1])
+}
+
+func (f *fakeConn) armKinds() []int {
+	f.mu.Lock()
+	defer f.mu.Unlock()
+	out := make([]int, len(f.arms))
+	for i, d := range f.arms {
+		out[i] = armKind(d)
+	}
+	return out
+}
+
 func (f *fakeConn) SetDeadline(t time.Time) error      { return nil }
 func (f *fakeConn) SetWriteDeadline(t time.Time) error { return nil }
 func (f *fakeConn) SetReadDeadline(t time.Time) error {
@@ -380,7 +415,7 @@ func (v *View) Applicable(a Action) bool {
 		return v.In(a.C, csDone) && known && widFree(v.Wid[a.C], a.C)
 	case AFeedStray:
 		return !v.Closed && !v.ReadErr && widFree(a.Wid, -1)
-	case AFeedErr:
+	case AFeedErr, AExpire:
 		return !v.Closed && !v.ReadErr
 	case AClose:
 		return !v.Closed
@@ -418,7 +453,7 @@ func Run(s Script, next func(v *View) *Action) (Script, []Obs, Final) {
 	dc := transport.NewDnsConn(transport.TraditionalDnsConnOpts{
 		WithLengthHeader:   s.TCP,
 		MaxConcurrentQuery: s.MaxCq,
-		IdleTimeout:        time.Minute,
+		IdleTimeout:        idleTimeout,
 	}, fc)
 	dc.VerifSetNextQid(s.Nq0)
 	idleSeen := 1
@@ -458,6 +493,7 @@ func Run(s Script, next func(v *View) *Action) (Script, []Obs, Final) {
 	defer verifhook.Set(nil)
 
 	obs := make([]Obs, 0, len(s.Actions))
+	idleRearm := false
 	collect := func(o *Obs) {
 		// wait for every call whose return is enabled, then poll the rest
 		ids := make([]int, 0, len(calls))
@@ -614,6 +650,20 @@ func Run(s Script, next func(v *View) *Action) (Script, []Obs, Final) {
 			case <-fc.closeCh:
 			case <-time.After(waitReturn):
 			}
+		case AExpire:
+			o.Code = fc.lastArm()
+			if o.Code == 1 {
+				for _, x := range calls {
+					if (x.st == csWaiting || x.st == csHeld) && !x.replied {
+						idleRearm = true
+					}
+				}
+			}
+			fc.feedErr(os.ErrDeadlineExceeded)
+			select {
+			case <-fc.closeCh:
+			case <-time.After(waitReturn):
+			}
 		case AClose:
 			dc.Close()
 		case ACancel:
@@ -634,6 +684,8 @@ func Run(s Script, next func(v *View) *Action) (Script, []Obs, Final) {
 	var fin Final
 	fin.Reserved, fin.Queued = dc.VerifCounters()
 	fin.Closed = dc.IsClosed()
+	fin.Arms = fc.armKinds()
+	fin.IdleRearm = idleRearm
 	for c, cr := range calls {
 		if cr.done == nil || cr.st == csDone || cr.st == csReserved {
 			continue
